@@ -23,6 +23,7 @@ from sa.pyfront import Program
 from sa.symex import Interp
 
 RULES = {
+    "R-C03-m": "aggregate constructors do not overwrite the caller's arrays (imported from the C17 frame analysis): NaN-seeding or zero-filling the caller's own array changes what every later computation over it - the other cube, a group-by, the next statistic - sees",
     "R-C03-l": "xcube strides are row-major: multipliers[k] = product of the extents after k (evaluated symbolically on a shape of 1, 2 and 3 dimensions), matching the C-order reshape of the regions",
     "R-C03-k": "the array cube's fill methods write through C-order reshape views of the regions (xfunc.flat_regions): flat cell i is the cell of strided coordinate i, and the writes land in the cube's arrays",
     "R-C03-j": "no fill method accumulates with `region[<integer array>] += v` (applied once per distinct index, so rows sharing a cell are lost); per-row accumulation goes through bincount",
@@ -346,6 +347,18 @@ def main(tier):
     rule_extents(prog, rep)
     rule_strides(prog, rep)
     rep.analysed["models"] = len(AT._cache)
+    import c17
+    sub17 = core.Report("C17", level="other", rules=c17.RULES, tier=tier)
+    st17 = {"events": 0, "mods": 0, "diagnostic": {}, "exceptions": {}, "regions": 0, "shortcuts": 0}
+    k17 = 0
+    for fi17, kind17 in c17.build_roots(prog):
+        if kind17 == "ctor" and fi17.module in ('ffuncs', 'xfuncs') and not fi17.opaque:
+            c17.analyse_root(prog, fi17, kind17, sub17, st17)
+            k17 += 1
+    for o in sub17.obls:
+        if o.rule == "R-C17-a":
+            rep.add("R-C03-m", o.where, "[%s] %s" % (o.rule, o.construct), o.status, o.detail, True, o.witness)
+    rep.floor("R-C03-m", 5, k17)
     return rep.finish()
 
 
